@@ -44,6 +44,9 @@ def evaluate(node, rates, extra=None):
             base = _mpf(num)
     elif op == 'lnfact':
         base = mpmath.loggamma(node['n'] + 1)
+    elif op == 't_ppf':
+        # the probability is carried in cn/cd, the degrees of freedom in n; no further coefficient
+        return t_ppf(coef, node['n'])
     elif op == 'var':
         base = _mpf(extra[node['ids'][0]])
     elif op in ('sum', 'prod', 'div'):
@@ -88,9 +91,48 @@ def evaluate(node, rates, extra=None):
             base = mpmath.loggamma(x)
         elif op == 'abs':
             base = abs(x)
+        elif op == 'two_sided_normal':
+            base = mpmath.erfc(abs(x) / mpmath.sqrt(2))
         else:
             raise ValueError('unknown XR op %r' % op)
     return _mpf(coef) * base
+
+
+_TPPF_CACHE = {}
+
+
+def t_cdf(t, df):
+    """Student t distribution function at 50 digits (regularised incomplete beta)."""
+    t = mpmath.mpf(t)
+    df = mpmath.mpf(df)
+    x = df / (df + t * t)
+    tail = mpmath.betainc(df / 2, mpmath.mpf(1) / 2, 0, x, regularized=True) / 2
+    return 1 - tail if t >= 0 else tail
+
+
+def t_ppf(prob, df):
+    """Quantile of Student's t by bisection on t_cdf (independent of scipy)."""
+    key = (Fraction(prob), int(df))
+    if key in _TPPF_CACHE:
+        return _TPPF_CACHE[key]
+    p = _mpf(Fraction(prob))
+    if df <= 0:
+        return float('nan')
+    lo, hi = mpmath.mpf(-1), mpmath.mpf(1)
+    while t_cdf(lo, df) > p:
+        lo *= 2
+    while t_cdf(hi, df) < p:
+        hi *= 2
+    for _ in range(200):
+        mid = (lo + hi) / 2
+        if t_cdf(mid, df) < p:
+            lo = mid
+        else:
+            hi = mid
+        if hi - lo < mpmath.mpf(10) ** -40 * max(1, abs(hi)):
+            break
+    _TPPF_CACHE[key] = (lo + hi) / 2
+    return _TPPF_CACHE[key]
 
 
 def close(code_value, expected, rtol=1e-9, atol=1e-11):
